@@ -13,7 +13,7 @@ import xarray
 
 import emsarray  # noqa: F401
 from emsarray import utils
-from coqio import coq_eval_sharded, to_coq
+from coqio import Some, coq_eval_sharded, to_coq
 import gen
 import polymodel as pm
 from hutil import attempt
@@ -138,6 +138,7 @@ def run(ctx):
     tmp = tempfile.mkdtemp(prefix='c17_', dir=os.environ.get('VERIF_WORK', '/verif/work'))
     exprs, plans = [], []
     tc_exprs, tc_plans = [], []
+    fix_exprs, fix_plans = [], []
     try:
         for n in range(n_ds):
             fam = rng.choice(gen.FAMILIES)
@@ -262,10 +263,29 @@ def run(ctx):
             case['time_encoding'] = variant
             with warnings.catch_warnings():
                 warnings.simplefilter('ignore')
+                # what each variable declares about missing values before the save (model SaveFixes)
+                fill_codes = {}
+
+                def fcode(x):
+                    x = float(numpy.asarray(x).reshape(-1)[0])
+                    return -1 if x != x else fill_codes.setdefault(x, len(fill_codes) + 1)
+                svars = []
+                for vi, v in enumerate(first.variables):
+                    va = first[v]
+                    e = va.encoding.get('_FillValue', 'absent')
+                    svars.append((vi, str(v), va.dtype.kind in 'fcMmO',
+                                  'None' if isinstance(e, str) else ('(Some None)' if e is None else f'(Some (Some ({fcode(e)})))'),
+                                  f'(Some ({fcode(va.attrs["_FillValue"])}))' if '_FillValue' in va.attrs else 'None'))
                 r = attempt(lambda: first.ems.to_netcdf(dst, **kwargs))
             if r[0] != 'ok':
                 ctx.report('property', f'ems.to_netcdf failed: {r[1]}', case)
                 continue
+            if not kwargs:
+                rb0 = raw_attrs(dst)
+                fix_exprs.append('(saved [' + '; '.join(
+                    f'{{| s_name := {vi}; s_has_nan := {str(hn).lower()}; s_enc := {e}; s_attr := {a} |}}' for vi, _, hn, e, a in svars) + '])')
+                fix_plans.append((dict(case), [(vi, None if '_FillValue' not in rb0.get(nm, {}) else Some(fcode(rb0[nm]['_FillValue'])))
+                                               for vi, nm, _, _, _ in svars], [nm for _, nm, _, _, _ in svars]))
             with warnings.catch_warnings():
                 warnings.simplefilter('ignore')
                 second = xarray.open_dataset(dst)
@@ -343,6 +363,14 @@ def run(ctx):
             got = tc[1] if tc[0] == 'ok' else None
             if want != got:
                 ctx.report('correspondence', f'model time_coordinate = {want}, implementation {tc}', case, found_input=False)
+        fmodel = coq_eval_sharded(['Model.SaveFixes'], fix_exprs, shard=12, workers=6)
+        ctx.leg('fill_value_fixups', len(fix_exprs))
+        for (fcase, got, vnames), mres in zip(fix_plans, fmodel):
+            want = [(int(a), b) for a, b in mres]
+            if want != got:
+                k = next(i for i, (a, b) in enumerate(zip(want, got)) if a != b)
+                ctx.report('correspondence', f'variable {vnames[k]}: _FillValue in the saved file {got[k][1]}, model SaveFixes.saved '
+                           f'{want[k][1]} (codes: -1 is NaN, others number the declared values)', fcase, found_input=False)
         for (case, new_units), mres in zip(plans, model):
             if codes(new_units) != mres:
                 ctx.report('correspondence', f'units in the saved file {new_units!r}, model {"".join(map(chr, mres))!r}', case,
